@@ -15,10 +15,13 @@ def programs(tier):
     out = []
     cq = [q("q_u32", "u32"), q("q_string", "String", (Arg("a", "u32"),)), q("q_inner", "Inner"), q("q_vec", "Vec<Inner>"),
           q("q_resp", "OtherResp", msg_params=", resp=OtherResp", ret="AliasRes"), Method("query", "q_res", (), ret="Result<En, StdError>", body="{ todo!() }", qret="En"),
-          q("q_unit", "()"), q("q_opt", "Option<u64>")]
+          q("q_unit", "()"), q("q_opt", "Option<u64>"),
+          # explicit resp= wins even when the signature spells a plain result of another type
+          q("q_resp_lit", "OtherResp", msg_params=", resp=OtherResp", ret="StdResult<u32>"),
+          q("is_phantom", "bool"), q("phantom", "u8")]
     i0 = Interface(name="If0", module="if0", custom="msg=Empty, query=Empty", assoc=(("Rt", "sylvia::serde::Serialize + sylvia::serde::de::DeserializeOwned + std::fmt::Debug + Clone + PartialEq + sylvia::schemars::JsonSchema"),),
                    assoc_impl=(("Rt", "Coin"),),
-                   methods=(q("iq_u32", "u32"), q("iq_assoc", "Self::Rt"), q("iq_vec_assoc", "Vec<Self::Rt>", (Arg("x", "Self::Rt"),)), Method("exec", "ie", ())))
+                   methods=(q("iq_u32", "u32"), q("phantom_count", "u64"), q("iq_resp_lit", "OtherResp", msg_params=", resp=OtherResp", ret="Result<String, Self::Error>"), q("iq_assoc", "Self::Rt"), q("iq_vec_assoc", "Vec<Self::Rt>", (Arg("x", "Self::Rt"),)), Method("exec", "ie", ())))
     i1 = Interface(name="If1", module="if1", custom="msg=Empty, query=Empty", methods=(q("jq_inner", "Inner"), q("jq_addr", "Addr")))
     base = [Method("instantiate", "inst", ()), Method("exec", "ex", ())]
     out.append(("pq0", Contract(methods=tuple(base + cq), interfaces=(i0, i1), entry_points=""), {"If0": {"Self::Rt": "Coin"}}))
